@@ -2325,7 +2325,15 @@ void janet_ev_default_threaded_callback(JanetEVGenericMessage return_value) {
     if (return_value.fiber == NULL) {
         return;
     }
-    if (janet_fiber_can_resume(return_value.fiber)) {
+    int waiting = janet_fiber_can_resume(return_value.fiber);
+    /* janet_ev_threaded_await leaves the fiber's schedule id (plus one) in argj. If the fiber has
+     * been resumed since (cancelled, deadline), it no longer waits for this call and whatever it
+     * waits for now must not be disturbed. Subroutines that build a fresh message leave 0 there. */
+    if (waiting && janet_checktype(return_value.argj, JANET_NUMBER)) {
+        double tagged = janet_unwrap_number(return_value.argj);
+        if (tagged >= 1.0 && (uint32_t)(tagged - 1.0) != return_value.fiber->sched_id) waiting = 0;
+    }
+    if (waiting) {
         switch (return_value.tag) {
             default:
             case JANET_EV_TCTAG_NIL:
@@ -2367,6 +2375,7 @@ void janet_ev_threaded_await(JanetThreadedSubroutine fp, int tag, int argi, void
     arguments.argi = argi;
     arguments.argp = argp;
     arguments.fiber = janet_root_fiber();
+    arguments.argj = janet_wrap_number((double) arguments.fiber->sched_id + 1.0);
     janet_gcroot(janet_wrap_fiber(arguments.fiber));
     janet_ev_threaded_call(fp, arguments, janet_ev_default_threaded_callback);
     janet_await();
